@@ -254,7 +254,21 @@ type vfC27Srv struct {
 	allow  []string // full reference allowlist (configured entries + the built-in default)
 }
 
-func vfC27NewServer(x *venum.X, prefix string, allowEntries []string, secret string) *vfC27Srv {
+// vfC27Tunings: unrelated server settings an operator may have changed; none of them may
+// alter how the login session is validated.
+var vfC27Tunings = []struct {
+	name  string
+	apply func(h *HttpServer)
+}{
+	{"stock", nil},
+	{"token-ttl-0", func(h *HttpServer) { h.SetTokenTTL(0) }},
+	{"token-ttl-500ms", func(h *HttpServer) { h.SetTokenTTL(500 * time.Millisecond) }},
+	{"token-ttl-2s", func(h *HttpServer) { h.SetTokenTTL(2 * time.Second) }},
+	{"token-ttl-1h", func(h *HttpServer) { h.SetTokenTTL(time.Hour) }},
+	{"no-call-cache-max-request-1MiB", func(h *HttpServer) { h.SetCallStateCacheEntries(0); h.SetMaxRequestBytes(1 << 20) }},
+}
+
+func vfC27NewServer(x *venum.X, prefix string, allowEntries []string, secret string, tune ...func(h *HttpServer)) *vfC27Srv {
 	s := NewServer()
 	key := sha256.Sum256([]byte(fmt.Sprintf("vf-c27-key-%d", venum.Seed())))
 	h, err := NewHttpServerWithKey(s, key[:])
@@ -263,6 +277,11 @@ func vfC27NewServer(x *venum.X, prefix string, allowEntries []string, secret str
 	}
 	if prefix != "" {
 		h.SetPrefix(prefix)
+	}
+	for _, f := range tune {
+		if f != nil {
+			f(h)
+		}
 	}
 	h.SetAuthenticate(func(r *http.Request) (*AuthContext, error) {
 		if r.Header.Get("Authorization") == "Bearer "+vfC27Token {
@@ -571,7 +590,7 @@ func vfC27SwapCase(s string) string {
 }
 
 func vfC27Callback(t *testing.T) {
-	cookieKinds := []string{"valid", "absent", "empty", "expired", "foreign-key", "raw-bit-flipped", "raw-truncated", "garbage"}
+	cookieKinds := []string{"valid", "absent", "empty", "expired", "expired-1d", "foreign-key", "raw-bit-flipped", "raw-truncated", "garbage"}
 	stateKinds := []string{"equal", "prefix", "plus-one-char", "case-folded", "empty", "absent", "other", "equal-then-second-param"}
 	returnTos := []string{"", "https://allowed.example/app?x=1", "https://allowed.example/app#frag", "http://localhost:5173/cb"}
 	venum.Explore(t, venum.Cfg{Name: "callback", Shardable: true}, func(x *venum.X) {
@@ -581,8 +600,10 @@ func vfC27Callback(t *testing.T) {
 		rt := returnTos[x.Choose(len(returnTos), "return_to-in-cookie")]
 		code := x.Pick("code", "c0de", "")
 		secret := x.Pick("client_secret", "", "shh-secret")
+		tuning := vfC27Tunings[x.Choose(len(vfC27Tunings), "server-tuning")]
+		x.Note("server tuning: %s", tuning.name)
 		vfC27Idp.reset()
-		srv := vfC27NewServer(x, prefix, []string{"https://allowed.example"}, secret)
+		srv := vfC27NewServer(x, prefix, []string{"https://allowed.example"}, secret, tuning.apply)
 		if srv == nil {
 			return
 		}
@@ -605,6 +626,8 @@ func vfC27Callback(t *testing.T) {
 			cookie = ""
 		case "expired":
 			cookie = packOAuthCookie("verifier-verifier-verifier-verifier-000000", vfC27State, orig, rt, key, now-sessionMaxAge-30)
+		case "expired-1d":
+			cookie = packOAuthCookie("verifier-verifier-verifier-verifier-000000", vfC27State, orig, rt, key, now-86400)
 		case "foreign-key":
 			cookie = packOAuthCookie("verifier-verifier-verifier-verifier-000000", vfC27State, orig, rt, deriveSessionKey(vfC27Key("other-signing")), now)
 		case "raw-bit-flipped":
@@ -653,7 +676,7 @@ func vfC27Callback(t *testing.T) {
 			x.Failf("C27:callback:exchange-with-unequal-state:"+sk, "state variant %q: the code was exchanged (%d token-endpoint requests) although the returned state differs from the packed state", sk, hits)
 		}
 		if hits > 0 && !cookieValid {
-			x.Failf("C27:callback:exchange-with-refused-cookie:"+ck, "cookie variant %q: the code was exchanged (%d token-endpoint requests)", ck, hits)
+			x.Failf("C27:callback:exchange-with-refused-cookie:"+ck+":server="+tuning.name, "cookie variant %q: the code was exchanged (%d token-endpoint requests)", ck, hits)
 		}
 		if hits > 1 {
 			x.Failf("C27:callback:exchanged-twice", "%d token-endpoint requests for one callback", hits)
@@ -670,7 +693,7 @@ func vfC27Callback(t *testing.T) {
 			x.Failf("C27:callback:verifier-not-from-cookie", "token endpoint got code_verifier %q", got)
 		}
 		k := srv.checkLocation(x, "callback", resp, true)
-		x.Outcome("cookie=%s state=%s status=%d hits=%d loc=%s", ck, sk, resp.StatusCode, hits, k)
+		x.Outcome("cookie=%s state=%s status=%d hits=%d loc=%s", ck, sk, resp.StatusCode, hits, k) // tuning deliberately not in the fingerprint: it must make no difference
 	})
 }
 
